@@ -2,6 +2,8 @@ package stk
 
 import (
 	"bytes"
+	"runtime"
+	"sort"
 	"context"
 	"errors"
 	"fmt"
@@ -137,6 +139,7 @@ func RunTierB(prop string, st *simcore.Stream, tier, leg string, logOn bool, res
 			return true
 		}
 	}
+	goroutinesBefore := runtime.NumGoroutine()
 	w := &tbWorld{res: res, spec: spec, allow: allow, tells: map[string]*tbTell{}, asks: map[string]*tbAsk{}, closed: make([]bool, p.N), lossy: lossRate > 0, addrSeen: map[string]bool{}}
 	w.eps = w0.Build(spec)
 	w.pubs = w0.Pubs
@@ -562,6 +565,37 @@ func RunTierB(prop string, st *simcore.Stream, tier, leg string, logOn bool, res
 	}
 	rcancel()
 	wg.Wait()
+	// C12: closing releases the goroutines the swarm started. Every node is closed now and the harness'
+	// own goroutines have ended: whatever still runs library code a few seconds later was left behind.
+	var left []string
+	for i := 0; i < 250; i++ {
+		left = left[:0]
+		if runtime.NumGoroutine() <= goroutinesBefore {
+			break
+		}
+		buf := make([]byte, 1<<20)
+		buf = buf[:runtime.Stack(buf, true)]
+		for _, g := range strings.Split(string(buf), "\n\n") {
+			if !strings.Contains(g, "go.brendoncarroll.net/p2p/") {
+				continue
+			}
+			for _, l := range strings.Split(g, "\n") {
+				if strings.HasPrefix(l, "go.brendoncarroll.net/p2p/") {
+					left = append(left, l[len("go.brendoncarroll.net/p2p/"):strings.LastIndex(l, "(")])
+					break
+				}
+			}
+		}
+		if len(left) == 0 {
+			break
+		}
+		time.Sleep(20 * time.Millisecond)
+	}
+	res.Checks++
+	if len(left) > 0 {
+		sort.Strings(left)
+		w.violate("goroutines-not-released", "%d goroutines running library code are still alive 5 seconds after every swarm of the stack was closed: %v", len(left), head(uniqStrings(left), 6)).With("sites", head(uniqStrings(left), 6))
+	}
 	if lost > 0 {
 		res.FaultN("datagram-lost", lost)
 	}
@@ -583,7 +617,7 @@ func RunTierB(prop string, st *simcore.Stream, tier, leg string, logOn bool, res
 		"C11": {"buffer-changed-in-callback": true, "ask-wrong-answer": true, "ask-success-without-handler": true, "ask-success-after-handler-failure": true, "ask-truncated-success": true, "ask-bad-length": true, "ask-request-not-asked": true, "ask-never-returned": true},
 		"C13": {"cancel-not-prompt": true, "cancelled-call-wrong-error": true},
 		"C16": {"address-does-not-parse": true, "address-changes-in-round-trip": true, "address-not-equal-after-round-trip": true},
-		"C12": {"late-call-blocked": true, "success-after-close": true, "delivery-after-close": true},
+		"C12": {"goroutines-not-released": true, "late-call-blocked": true, "success-after-close": true, "delivery-after-close": true},
 	}[prop]
 	var out []simcore.Violation
 	for _, v := range res.Violations {
@@ -834,3 +868,13 @@ func (w *tbWorld) judge(mtu, closedNode int) {
 }
 
 var _ = io.EOF
+
+func uniqStrings(xs []string) []string {
+	var out []string
+	for i, x := range xs {
+		if i == 0 || x != xs[i-1] {
+			out = append(out, x)
+		}
+	}
+	return out
+}
